@@ -42,7 +42,7 @@ pub enum EvalError {
 }
 
 pub struct Evaluator<'a> {
-    env: &'a Env,
+    env: std::borrow::Cow<'a, Env>,
     memo: HashMap<String, Vec<u8>>,
 }
 
@@ -54,7 +54,7 @@ fn arg<'v>(t: &'v Value, i: usize) -> Result<&'v Value, EvalError> {
 
 impl<'a> Evaluator<'a> {
     pub fn new(env: &'a Env) -> Self {
-        Evaluator { env, memo: HashMap::new() }
+        Evaluator { env: std::borrow::Cow::Borrowed(env), memo: HashMap::new() }
     }
 
     pub fn int(&mut self, t: &Value) -> Result<u64, EvalError> {
@@ -92,6 +92,18 @@ impl<'a> Evaluator<'a> {
                 let n = self.n(t, "n")?;
                 return Ok(vec![0u8; n as usize]);
             }
+            "byte" => return Ok(vec![self.n(t, "n")? as u8]),
+            "lets" => {
+                // sequential bindings; names shadow the environment for the rest of this evaluation
+                let binds = t.get("binds").and_then(|x| x.as_array()).ok_or_else(|| EvalError::Bad("lets".into()))?;
+                for b in binds {
+                    let name = b.get("name").and_then(|x| x.as_str()).ok_or_else(|| EvalError::Bad("lets name".into()))?;
+                    let v = self.eval(b.get("val").ok_or_else(|| EvalError::Bad("lets val".into()))?)?;
+                    self.env.to_mut().bytes.insert(name.to_string(), v);
+                    self.memo.clear();
+                }
+                return self.eval(arg(t, 0)?);
+            }
             "be32" => return Ok((self.n(t, "n")? as u32).to_be_bytes().to_vec()),
             "be64" => return Ok(self.n(t, "n")?.to_be_bytes().to_vec()),
             "le64" => return Ok(self.n(t, "n")?.to_le_bytes().to_vec()),
@@ -118,6 +130,20 @@ impl<'a> Evaluator<'a> {
                     return Err(EvalError::Bad(format!("slice {}..{} of {} bytes", lo, hi, b.len())));
                 }
                 b[lo..hi].to_vec()
+            }
+            "xorbyte" => {
+                let b = self.eval(arg(t, 0)?)?;
+                let x = self.n(t, "n")? as u8;
+                b.iter().map(|y| y ^ x).collect()
+            }
+            "padzero" => {
+                let mut b = self.eval(arg(t, 0)?)?;
+                let n = self.n(t, "n")? as usize;
+                if b.len() > n {
+                    return Err(EvalError::Bad("padzero: longer than target".into()));
+                }
+                b.resize(n, 0);
+                b
             }
             "b64" => {
                 let b = self.eval(arg(t, 0)?)?;
